@@ -1814,6 +1814,375 @@ void caseUnitParam(vrt::Case& c)
   }
   }
 }
+
+// ------------------------------------------------------------------ group reconfigured (draws of an object with a history)
+// The bulk groups draw from an object right after its constructor, or after setParameterValue in the default namespace.
+// "Each distribution's own continuous and discrete draws follow the law that the same parameters describe" holds for the
+// parameters the object has NOW, whatever happened to it before: built, copied, cloned or assigned from another object; its
+// parameter namespace changed (custom, empty, changed twice, changed and restored); some or all of its parameters updated,
+// once or twice, through any entry of the Parametrizable interface (setParameterValue, setParametersValues,
+// matchParametersValues with a partial list + a foreign parameter or with a full list, setAllParametersValues); copied again
+// after the update.  One case = one family x one such history.  Reference = a FRESH object of the same family built by the
+// constructor from the parameter values the object under test reports (the route the bulk groups judge): its pProb is "the
+// library's cumulative function with the same parameters", its domain the domain that belongs to these parameters.
+struct ReFamily
+{
+  string name;
+  vector<string> pn; // parameter names without namespace
+  function<unique_ptr<AbstractDiscreteDistribution>(size_t, const vector<double>&)> make;
+  function<unique_ptr<AbstractDiscreteDistribution>(const AbstractDiscreteDistribution&)> copy;               // copy constructor
+  function<void(AbstractDiscreteDistribution&, const AbstractDiscreteDistribution&)> assign;                 // operator=
+  function<vector<double>(vrt::Rng&)> gen;                                                                   // a parameter point of the quantifier
+  function<double(const vector<double>&, size_t, vrt::Rng&)> other;                                          // a materially different value of parameter i
+  function<pair<double, double>(const vector<double>&)> support;
+};
+
+template<class D> unique_ptr<AbstractDiscreteDistribution> reCopy(const AbstractDiscreteDistribution& s)
+{
+  return unique_ptr<AbstractDiscreteDistribution>(new D(dynamic_cast<const D&>(s)));
+}
+template<class D> void reAssign(AbstractDiscreteDistribution& t, const AbstractDiscreteDistribution& s)
+{
+  dynamic_cast<D&>(t) = dynamic_cast<const D&>(s);
+}
+
+// another grid value, at least a factor 2 away (a stale member then moves the cdf by far more than the KS threshold)
+double otherGrid(double v, vrt::Rng& r)
+{
+  for (;;)
+  {
+    double x = gridParam(r);
+    if (x >= 2 * v || x <= v / 2) return x;
+  }
+}
+
+const vector<ReFamily>& reFamilies()
+{
+  static const double inf = std::numeric_limits<double>::infinity();
+  static const vector<ReFamily> F = {
+    { "Gamma", { "alpha", "beta" },
+      [](size_t n, const vector<double>& v) { return unique_ptr<AbstractDiscreteDistribution>(new GammaDiscreteDistribution(n, v[0], v[1])); },
+      reCopy<GammaDiscreteDistribution>, reAssign<GammaDiscreteDistribution>,
+      [](vrt::Rng& r) { double a = gridParam(r), b = gridParam(r); return vector<double>{ a, b }; },
+      [](const vector<double>& v, size_t i, vrt::Rng& r) { return otherGrid(v[i], r); },
+      [](const vector<double>&) { return make_pair(0., inf); } },
+    { "Gamma+offset", { "alpha", "beta", "offset" },
+      [](size_t n, const vector<double>& v) { return unique_ptr<AbstractDiscreteDistribution>(new GammaDiscreteDistribution(n, v[0], v[1], 0.05, 0.05, true, v[2])); },
+      reCopy<GammaDiscreteDistribution>, reAssign<GammaDiscreteDistribution>,
+      [](vrt::Rng& r) { static const double OFF[] = { -3, -0.5, 0.5, 3 }; double a = gridParam(r), b = gridParam(r); return vector<double>{ a, b, OFF[r.below(4)] }; },
+      [](const vector<double>& v, size_t i, vrt::Rng& r) {
+        static const double OFF[] = { -3, -0.5, 0.5, 3 };
+        if (i < 2) return otherGrid(v[i], r);
+        for (;;) { double o = OFF[r.below(4)]; if (o != v[2]) return o; }
+      },
+      [](const vector<double>& v) { return make_pair(v[2], inf); } },
+    { "Gaussian", { "mu", "sigma" },
+      [](size_t n, const vector<double>& v) { return unique_ptr<AbstractDiscreteDistribution>(new GaussianDiscreteDistribution(n, v[0], v[1])); },
+      reCopy<GaussianDiscreteDistribution>, reAssign<GaussianDiscreteDistribution>,
+      [](vrt::Rng& r) { double mu = r.chance(0.3) ? 0. : r.real(-20, 20); double s = gridParam(r); return vector<double>{ mu, s }; },
+      [](const vector<double>& v, size_t i, vrt::Rng& r) {
+        if (i == 1) return otherGrid(v[1], r);
+        double shift = (2 * v[1] + 1) * r.real(1, 3);
+        return r.chance(0.5) ? v[0] + shift : v[0] - shift;
+      },
+      [](const vector<double>&) { return make_pair(-inf, inf); } },
+    { "Exponential", { "lambda" },
+      [](size_t n, const vector<double>& v) { return unique_ptr<AbstractDiscreteDistribution>(new ExponentialDiscreteDistribution(n, v[0])); },
+      reCopy<ExponentialDiscreteDistribution>, reAssign<ExponentialDiscreteDistribution>,
+      [](vrt::Rng& r) { return vector<double>{ gridParam(r) }; },
+      [](const vector<double>& v, size_t i, vrt::Rng& r) { return otherGrid(v[i], r); },
+      [](const vector<double>&) { return make_pair(0., inf); } },
+    { "TruncExponential", { "lambda", "tp" },
+      [](size_t n, const vector<double>& v) { return unique_ptr<AbstractDiscreteDistribution>(new TruncatedExponentialDiscreteDistribution(n, v[0], v[1])); },
+      reCopy<TruncatedExponentialDiscreteDistribution>, reAssign<TruncatedExponentialDiscreteDistribution>,
+      // lambda*tp in [0.2,4] as in the bulk group (acceptance probability of the rejection loop >= 0.18)
+      [](vrt::Rng& r) { double l = gridParam(r); double tp = r.real(0.2, 4) / l; return vector<double>{ l, tp }; },
+      [](const vector<double>& v, size_t i, vrt::Rng& r) {
+        if (i == 0) return otherGrid(v[0], r);
+        double f = r.real(2, 5);
+        return r.chance(0.5) ? v[1] * f : v[1] / f; // the truncation point moves out or in
+      },
+      [](const vector<double>& v) { return make_pair(0., v[1]); } },
+    { "Beta", { "alpha", "beta" },
+      [](size_t n, const vector<double>& v) { return unique_ptr<AbstractDiscreteDistribution>(new BetaDiscreteDistribution(n, v[0], v[1])); },
+      reCopy<BetaDiscreteDistribution>, reAssign<BetaDiscreteDistribution>,
+      [](vrt::Rng& r) { double a = gridParam(r), b = gridParam(r); return vector<double>{ a, b }; },
+      [](const vector<double>& v, size_t i, vrt::Rng& r) { return otherGrid(v[i], r); },
+      [](const vector<double>&) { return make_pair(0., 1.); } },
+  };
+  return F;
+}
+
+const char* const RE_NS[] = { "default", "custom", "empty", "renamed-twice", "restored" };
+const char* const RE_ORIGIN[] = { "ctor", "copy", "clone", "assigned" };
+const char* const RE_ROUTE[] = { "setParameterValue", "setParametersValues(sublist)", "matchParametersValues(sublist+foreign)", "matchParametersValues(full)", "setAllParametersValues" };
+const int RE_NNS = 5, RE_NORIGIN = 4, RE_NROUTE = 5, RE_COMBOS = RE_NNS * RE_NORIGIN * RE_NROUTE;
+
+string reCustomNamespace(vrt::Rng& r, const string& dflt)
+{
+  switch (r.below(5))
+  {
+  case 0: return "model1.rates.";
+  case 1: return "x.";
+  case 2: return "Y." + dflt;        // ends with the default prefix
+  case 3: return dflt + "sub.";      // starts with the default prefix
+  default: return "m_" + str(r.range(1, 99)) + ".";
+  }
+}
+
+// set the parameters `which` of d to `val` through one entry of the Parametrizable interface
+void reUpdate(AbstractDiscreteDistribution& d, const ReFamily& f, int route, vector<size_t> which, const vector<double>& val, vrt::Rng& r)
+{
+  string ns = d.getNamespace();
+  string txt = string(RE_ROUTE[route]) + " in namespace '" + ns + "':";
+  for (size_t i : which) txt += " " + f.pn[i] + "=" + str(val[i]);
+  vrt::step(txt);
+  if (route == 0)
+  {
+    r.shuffle(which);
+    for (size_t i : which) d.setParameterValue(f.pn[i], val[i]);
+    return;
+  }
+  ParameterList pl;
+  if (route == 1 || route == 2)
+  {
+    vector<string> names;
+    for (size_t i : which) names.push_back(ns + f.pn[i]);
+    pl = d.getParameters().createSubList(names);
+    if (route == 2) pl.addParameter(Parameter("other.kappa", 2.0));
+  }
+  else
+    pl = d.getParameters();
+  for (size_t i : which) pl.setParameterValue(ns + f.pn[i], val[i]);
+  if (route == 1) d.setParametersValues(pl);
+  else if (route == 4) d.setAllParametersValues(pl);
+  else (void)d.matchParametersValues(pl);
+}
+
+bool sameEnd(double a, double b)
+{
+  if (a == b) return true;
+  return std::isfinite(a) && std::isfinite(b) && std::fabs(a - b) <= 1e-9 * max(1.0, max(std::fabs(a), std::fabs(b)));
+}
+
+// Continuous draws of d against the cumulative function of `ref` (a fresh object with the same parameters).  A family whose
+// randC rejects draws outside the object's own domain may follow the law conditioned on that domain (see judgeRandC) - but
+// only when this domain is the domain of the fresh object up to the class's precision (Beta narrows [0,1] by 1e-20 after an
+// update); a domain left over from earlier parameters is not a reading of the law of the current ones.
+void judgeRandCRef(const string& api, const string& what, u32 seed, const DiscreteDistributionInterface& d, const DiscreteDistributionInterface& ref, double lo, double hi)
+{
+  const size_t N = 20000;
+  vector<double> xs(N);
+  RandomTools::setSeed(seed);
+  vrt::Outcome o = vrt::capture([&] { for (double& x : xs) x = d.randC(); });
+  if (!vrt::expect(o.returned(), "randC.returns", api, [&] { return what + " seed " + str(seed) + ": randC " + o.text(); })) return;
+  const double eps = std::numeric_limits<double>::epsilon();
+  // resolution of doubles at an excluded, finite, non-zero domain end (rule of judgeRandC), for the domain of either object
+  double mass = 0;
+  for (const DiscreteDistributionInterface* q : { &d, &ref })
+  {
+    double dl = q->getLowerBound(), du = q->getUpperBound(), m = 0;
+    if (std::isfinite(dl) && dl != 0 && q->strictLowerBound()) m += ref.pProb(dl + 4 * eps * std::fabs(dl)) - ref.pProb(dl);
+    if (std::isfinite(du) && du != 0 && q->strictUpperBound()) m += ref.pProb(du) - ref.pProb(du - 4 * eps * std::fabs(du));
+    if (!(m <= mass)) mass = m;
+  }
+  if (!(mass <= 1e-3))
+  {
+    size_t off = 0;
+    for (double v : xs) off += !(std::isfinite(v) && v >= lo && v <= hi);
+    vrt::expect(off == 0, "law.support", api, [&] { return what + " seed " + str(seed) + ": " + str(off) + " draws are not finite or outside [" + str(lo) + "," + str(hi) + "]"; });
+    vrt::tally("law-not-judged:mass-within-4ulp-of-an-excluded-domain-end:reconfigured");
+    return;
+  }
+  function<double(double)> alt;
+  double dl = d.getLowerBound(), du = d.getUpperBound();
+  if (sameEnd(dl, ref.getLowerBound()) && sameEnd(du, ref.getUpperBound()))
+  {
+    double Fl = ref.pProb(dl), Fu = ref.pProb(du);
+    if (std::isfinite(Fl) && std::isfinite(Fu) && Fu - Fl > 0.5 && (Fl > 0 || Fu < 1))
+      alt = [&ref, Fl, Fu](double x) { double f = (ref.pProb(x) - Fl) / (Fu - Fl); return f < 0 ? 0. : f > 1 ? 1. : f; };
+  }
+  judgeLaw(api, what, seed, xs, lo, hi, [&](double x) { return ref.pProb(x); }, alt);
+}
+
+// largest distance between the cumulative function G of a discrete law on the points `at` (ascending; G(x) = mass of points <= x,
+// given by cum[i] at at[i]) and the continuous cumulative function F, over all x: attained just before or at a point.
+double stepDistance(const vector<double>& at, const vector<double>& cum, const function<double(double)>& F)
+{
+  double D = 0, before = 0;
+  for (size_t i = 0; i < at.size(); ++i)
+  {
+    double f = F(at[i]);
+    if (!(f >= -1e-6 && f <= 1 + 1e-6)) return std::numeric_limits<double>::quiet_NaN();
+    D = max(D, max(std::fabs(f - before), std::fabs(cum[i] - f)));
+    before = cum[i];
+  }
+  return D;
+}
+
+// Discrete draws of d against the law of the current parameters, at the resolution of the classes: a class value stands for
+// an interval of the law's mass, so the cumulative function of the class values stays within the largest class probability of
+// the continuous one.  Demanded of the object under test only when the fresh object with the same parameters achieves it
+// (how good a discretisation is belongs to another property), and on top of the clauses of judgeRand (own classes).
+void judgeRandRef(const string& api, const string& what, u32 seed, const DiscreteDistributionInterface& d, const DiscreteDistributionInterface& ref, double lo, double hi)
+{
+  const size_t N = 20000;
+  Vdouble rc = ref.getCategories(), rp = ref.getProbabilities();
+  Vdouble dp = d.getProbabilities();
+  if (rc.size() != rp.size() || rc.size() < 2 || dp.empty()) { vrt::tally("discrete-law-not-judged:single-class"); return; }
+  function<double(double)> F = [&](double x) { return ref.pProb(x); };
+  double maxp = 0, tot = 0;
+  for (double p : rp) { maxp = max(maxp, p); tot += p; }
+  for (double p : dp) maxp = max(maxp, p);
+  // mass of the law outside the domain the classes are built on (Beta after an update: below 1e-20 / above 1 - 1e-20)
+  double outside = 0;
+  for (const DiscreteDistributionInterface* q : { &d, &ref })
+  {
+    if (!(sameEnd(q->getLowerBound(), ref.getLowerBound()) && sameEnd(q->getUpperBound(), ref.getUpperBound()))) continue;
+    double m = ref.pProb(q->getLowerBound()) + 1 - ref.pProb(q->getUpperBound());
+    if (m > outside) outside = m;
+  }
+  if (!(std::fabs(tot - 1) < 1e-6) || !(outside <= 0.1)) { vrt::tally("discrete-law-not-judged:fresh-discretisation-degenerate"); return; }
+  vector<double> cum(rc.size());
+  {
+    double a = 0;
+    for (size_t i = 0; i < rc.size(); ++i) { a += rp[i]; cum[i] = a; }
+  }
+  double dRef = stepDistance(rc, cum, F);
+  if (!(dRef <= maxp + outside + 1e-6)) { vrt::tally("discrete-law-not-judged:fresh-discretisation-not-at-class-resolution"); return; }
+  vector<double> xs(N);
+  RandomTools::setSeed(seed);
+  vrt::Outcome o = vrt::capture([&] { for (double& x : xs) x = d.rand(); });
+  if (!vrt::expect(o.returned(), "rand.returns", api, [&] { return what + " seed " + str(seed) + ": rand " + o.text(); })) return;
+  size_t off = 0;
+  double firstOff = 0;
+  for (double v : xs)
+    if (!(std::isfinite(v) && v >= lo - 1e-9 * max(1.0, std::fabs(lo)) && v <= hi + 1e-9 * max(1.0, std::fabs(hi)))) { if (!off) firstOff = v; ++off; }
+  if (!vrt::expect(off == 0, "law.support", api, [&] {
+          return what + " seed " + str(seed) + ": " + str(off) + " of " + str(N) + " discrete draws are not finite or outside the support [" + str(lo) + "," + str(hi) + "] of the current parameters, first " + str(firstOff);
+        })) return;
+  sort(xs.begin(), xs.end());
+  vector<double> at, ecum;
+  for (size_t i = 0; i < xs.size(); ++i)
+    if (i + 1 == xs.size() || xs[i + 1] != xs[i]) { at.push_back(xs[i]); ecum.push_back(static_cast<double>(i + 1) / static_cast<double>(N)); }
+  double D = stepDistance(at, ecum, F);
+  double thr = maxp + outside + ksThreshold(N);
+  vrt::tally("stat-comparisons");
+  vrt::expect(D <= thr, "law.discrete-cdf", api, [&] {
+        return what + " seed " + str(seed) + " N=" + str(N) + ": the cumulative function of the discrete draws (values " + vrt::vecStr(at) + ", cumulated frequencies " + vrt::vecStr(ecum)
+        + ") is " + str(D) + " away from the library's cdf with the same parameters; largest class probability " + str(maxp) + ", threshold " + str(thr)
+        + "; a fresh object with these parameters has classes " + vrt::vecStr(rc) + " (distance " + str(dRef) + ")";
+      });
+}
+
+void caseReconfigured(vrt::Case& c)
+{
+  const vector<ReFamily>& fams = reFamilies();
+  const size_t nf = fams.size();
+  const size_t fi = static_cast<size_t>(c.index % nf);
+  const ReFamily& f = fams[fi];
+  // the structure of the history is a function of the index (so is the signature); 37 and 13 spread the combinations so that
+  // any block of consecutive indices mixes namespaces, origins and routes, and the families do not all see the same block
+  const u64 j = c.index / nf;
+  const int combo = static_cast<int>(((j + 13 * fi) * 37) % RE_COMBOS);
+  const int nsKind = combo % RE_NNS, origin = (combo / RE_NNS) % RE_NORIGIN, route = combo / (RE_NNS * RE_NORIGIN);
+  const string hist = string("ns=") + RE_NS[nsKind] + ",origin=" + RE_ORIGIN[origin];
+  const size_t np = f.pn.size();
+  u32 seed = libSeed(c);
+  size_t n = static_cast<size_t>(c.rng.range(1, 8));
+  // final parameter point, and which parameters are updated to reach it (the others have their final value from the start)
+  vector<double> v = f.gen(c.rng);
+  size_t mask = 1 + c.rng.below((size_t(1) << np) - 1);
+  vector<size_t> which;
+  for (size_t i = 0; i < np; ++i) if (mask >> i & 1) which.push_back(i);
+  vector<double> v0(v), v1(v), w(np);
+  for (size_t i : which) { v0[i] = f.other(v, i, c.rng); v1[i] = f.other(v, i, c.rng); }
+  for (size_t i = 0; i < np; ++i) w[i] = f.other(v, i, c.rng); // unrelated values: of the object assigned over, of the source afterwards
+  vector<size_t> all(np);
+  iota(all.begin(), all.end(), size_t(0));
+  bool twoRounds = c.rng.chance(0.4);
+  bool nsOnSource = origin != 0 && c.rng.chance(0.5);  // the namespace is changed before / after the object is copied
+  bool copyAfter = c.rng.chance(0.3);                  // the draws are made by a copy taken after the update
+  string desc = f.name + "(n=" + str(n) + ") " + hist + ", " + vrt::vecStr(f.pn) + " " + vrt::vecStr(v0) + " -> " + vrt::vecStr(v) + " by " + RE_ROUTE[route]
+      + (twoRounds ? " (two rounds)" : "") + (copyAfter ? ", drawn from a copy taken afterwards" : "");
+  vrt::describe("reconfigured:" + f.name, desc);
+
+  unique_ptr<AbstractDiscreteDistribution> d, src;
+  string dflt;
+  auto rename = [&](AbstractDiscreteDistribution& x) {
+        auto set = [&](const string& ns) { vrt::step("setNamespace('" + ns + "')"); x.setNamespace(ns); };
+        switch (nsKind)
+        {
+        case 1: set(reCustomNamespace(c.rng, dflt)); break;
+        case 2: set(""); break;
+        case 3: set(reCustomNamespace(c.rng, dflt)); set(c.rng.chance(0.3) ? string("") : "again." + reCustomNamespace(c.rng, dflt)); break;
+        case 4: set(reCustomNamespace(c.rng, dflt)); set(dflt); break;
+        default: break;
+        }
+      };
+  vrt::Outcome o = vrt::capture([&] {
+        if (origin == 0)
+        {
+          vrt::step("construct with " + vrt::vecStr(v0));
+          d = f.make(n, v0);
+          dflt = d->getNamespace();
+          rename(*d);
+        }
+        else
+        {
+          vrt::step("construct the source with " + vrt::vecStr(v0));
+          src = f.make(n, v0);
+          dflt = src->getNamespace();
+          if (nsOnSource) rename(*src);
+          if (origin == 1) { vrt::step("copy-construct from the source"); d = f.copy(*src); }
+          else if (origin == 2) { vrt::step("clone the source"); d.reset(dynamic_cast<AbstractDiscreteDistribution*>(src->clone())); }
+          else
+          {
+            size_t n2 = static_cast<size_t>(c.rng.range(1, 8));
+            vrt::step("construct another object (n=" + str(n2) + ") with " + vrt::vecStr(w) + ", assign the source to it");
+            d = f.make(n2, w);
+            if (c.rng.chance(0.5)) d->setNamespace("old.");
+            f.assign(*d, *src);
+          }
+          // the source lives on with other parameters (or is destroyed): nothing of it may show in the copy
+          if (c.rng.chance(0.5)) { vrt::step("destroy the source"); src.reset(); }
+          else reUpdate(*src, f, static_cast<int>(c.rng.below(RE_NROUTE)), all, w, c.rng);
+          if (!nsOnSource) rename(*d);
+        }
+        if (twoRounds) reUpdate(*d, f, static_cast<int>(c.rng.below(RE_NROUTE)), which, v1, c.rng);
+        reUpdate(*d, f, route, which, v, c.rng);
+        if (copyAfter)
+        {
+          vrt::step("copy the updated object, change the original, draw from the copy");
+          unique_ptr<AbstractDiscreteDistribution> e = c.rng.chance(0.5) ? f.copy(*d) : unique_ptr<AbstractDiscreteDistribution>(dynamic_cast<AbstractDiscreteDistribution*>(d->clone()));
+          reUpdate(*d, f, 0, which, v0, c.rng);
+          d = std::move(e);
+        }
+      });
+  if (!o.returned() || !d)
+  {
+    // which of these calls may refuse what is the business of the Parametrizable properties; no draw to judge
+    vrt::tally("reconfigured-history-refused:" + f.name + ":" + RE_ROUTE[route]);
+    vrt::note(o.text());
+    return;
+  }
+  // the parameters the object has now
+  vector<double> now(np);
+  vrt::Outcome o2 = vrt::capture([&] { for (size_t i = 0; i < np; ++i) now[i] = d->getParameterValue(f.pn[i]); });
+  if (!o2.returned()) { vrt::tally("reconfigured-parameters-unreadable:" + f.name); vrt::note(o2.text()); return; }
+  bool asSet = now == v;
+  if (!asSet) vrt::tally("reconfigured-parameters-not-as-set:" + f.name + ":" + RE_ROUTE[route]); // judged for the values it has
+  unique_ptr<AbstractDiscreteDistribution> ref;
+  size_t nCat = d->getNumberOfCategories();
+  vrt::Outcome o3 = vrt::capture([&] { ref = f.make(nCat, now); });
+  if (!o3.returned() || !ref) { vrt::tally("reconfigured-reference-refused:" + f.name); return; }
+  pair<double, double> sup = f.support(now);
+  string what = desc + "; parameters now " + vrt::vecStr(now) + " in namespace '" + d->getNamespace() + "', " + str(nCat) + " classes";
+  judgeRandCRef(f.name + "::randC:reconfigured(" + hist + ")", what, seed, *d, *ref, sup.first, sup.second);
+  judgeRand(f.name + ":reconfigured(" + hist + ")", what, seed + 1, *d);
+  judgeRandRef(f.name + "::rand:reconfigured(" + hist + ")", what, seed + 1, *d, *ref, sup.first, sup.second);
+  if (asSet) vrt::cover("reconfigured:" + f.name + ":" + hist + ":route=" + RE_ROUTE[route]);
+}
 } // namespace
 
 int main(int argc, char** argv)
@@ -1833,6 +2202,7 @@ int main(int argc, char** argv)
     { "hmm-sample", 120, 3000, caseHmm, 600, false },
     { "dirichlet", 48, 900, caseDirichlet, 600, false },
     { "unit-param", 6 * UNIT_KINDS, 60 * UNIT_KINDS, caseUnitParam, 600, false },
+    { "reconfigured", 240, 4800, caseReconfigured, 600, false },
   };
   vrt::Meta meta;
   meta.rule = "seed-repro: the run seed and 15 derived seeds, one fixed program of every sampler run twice after setSeed. cont-sampler / dist-randC / dist-rand / picks / hmm-sample / dirichlet: "
@@ -1840,12 +2210,16 @@ int main(int argc, char** argv)
       "length 1..12 with zeros), the library generator seeded from the case stream, N=20000 draws. sample-exact / pick-exact: every (variant, source size 0..12, sample size 0..14), repeated draws, "
       "sources with and without repeated values. rcont2-exhaustive: every pair of margin vectors with 2..5 entries (zeros included) and equal total <= 12; rcont2-random: totals 13..200. "
       "ctest-pvalue: random 2..5 x 2..5 tables of six shapes, chi-square and permutation p-values. unit-param: every continuous sampler and every family's randC/rand with each mean/rate/shape/"
-      "deviation argument exactly 1 (one at a time with the others from the grid, and all together; constructor and setParameterValue routes). A class key = (sampler, parameter region / size class / shape / route); all involve real draws.";
+      "deviation argument exactly 1 (one at a time with the others from the grid, and all together; constructor and setParameterValue routes). reconfigured: one family (Gamma, Gamma+offset, Gaussian, "
+      "Exponential, TruncExponential, Beta) x one object history = namespace (default / custom / empty / renamed twice / restored) x origin (constructor / copy / clone / assignment, the source changed or "
+      "destroyed afterwards) x update route (setParameterValue / setParametersValues / matchParametersValues partial+foreign / matchParametersValues full / setAllParametersValues) of a random non-empty "
+      "subset of the parameters, once or twice, optionally drawn from a copy taken afterwards; randC and rand judged against a fresh object built from the parameter values the object reports. A class key = (sampler, parameter region / size class / shape / route); all involve real draws.";
   meta.assumptions = {
     "statistical clauses: error probability 1e-13 per comparison (Dvoretzky-Kiefer-Wolfowitz-Massart for the Kolmogorov-Smirnov distance, Bernstein/Freedman for frequencies); < 1e7 comparisons per run",
     "the library's own cdf (pNorm, pGamma, pBeta, pProb) is the reference for the same parameters, trusted to 2e-3 in cdf value; its accuracy is another property (a cdf returning values outside [0,1] at sampled points is tallied, not judged)",
     "randExponential's argument is the mean (its documentation), randGaussian's second argument the variance, randGamma's beta is the beta of pGamma (a rate), GaussianDiscreteDistribution's sigma the standard deviation",
     "a distribution whose randC rejects draws outside the class's own domain may follow pProb conditioned on [getLowerBound, getUpperBound]; user-restricted domains are not exercised",
+    "reconfigured objects: the law of the current parameters is the pProb of a fresh object constructed with the reported parameter values; conditioning on the object's own domain is admitted only when that domain equals the fresh object's up to 1e-9; discrete draws are judged at class resolution (largest class probability + DKW) and only when the fresh object's own classes are that close to its cdf; a history refused by an exception is not judged",
     "draws are judged up to 4 ulp of their value; randC of a family with an excluded finite non-zero domain end is judged in law only when pProb puts <= 1e-3 of the mass within 4 ulp of that end (shape 0.1 puts 3% there: resolution of doubles)",
     "an event of probability <= 2^-53 per draw (the uniform variate hitting a cumulated weight exactly) is neglected in the zero-weight-never-drawn clause",
     "weighted sampling without replacement is judged in law for the first two positions and only for requests not exceeding the number of positive weights",
